@@ -444,6 +444,7 @@ Lemma st_create_table_err_rep s d n fds s' e :
 Proof.
   intros HR Hmax Hrun. unfold st_create_table in Hrun. fold (names fds) in Hrun.
   destruct (names_distinct (names fds)) eqn:Hd; [|inversion Hrun; subst; left; exact HR].
+  destruct (create_bad_rows s n fds); [inversion Hrun; subst; left; exact HR|].
   destruct (st_create_table0_err_rep s d n fds s' e HR (names_distinct_NoDup _ Hd) Hmax Hrun) as [H|(Hf & H)];
     [left; exact H | right; auto].
 Qed.
@@ -485,7 +486,9 @@ Proof.
     cbn [stmt_ok] in Hst. rename Hst into Hv.
     assert (Hvals : Forall (Forall val_okP) rows).
     { apply forallb_Forall in Hv. eapply Forall_impl; [|exact Hv]. intros r. apply forallb_Forall. }
-    cbn [run_stmt] in *. destruct (insert_rows s n cols rows [] 0) as [[s1 b] o] eqn:Er. cbn [e_store e_out] in *. subst o.
+    cbn [run_stmt] in *.
+    destruct (first_err _ rows) as [u|e0|]; try (cbn [e_store]; exists d; split; [left; reflexivity | exact HR]).
+    destruct (insert_rows s n cols rows [] 0) as [[s1 b] o] eqn:Er. cbn [e_store e_out] in *. subst o.
     destruct (is_sys n) eqn:Hsys; [|destruct (find_tbl n d) as [t|] eqn:Hf].
     + destruct rows as [|r rest]; [cbn in Er; inversion Er|].
       cbn [insert_rows] in Er. destruct (st_insert s n cols r) as [s2 [ws|e2|]] eqn:Est.
@@ -510,6 +513,7 @@ Proof.
     destruct (existsb _ sets) eqn:Ex; [cbn [e_store]; exists d; split; [left; reflexivity | exact HR]|].
     destruct (where_ids s n w) as [ids|e1|] eqn:Ew; cbn [e_out e_store] in *;
       try (exists d; split; [left; reflexivity | exact HR]).
+    destruct (first_err _ ids) as [u|e0|]; try (cbn [e_store]; exists d; split; [left; reflexivity | exact HR]).
     destruct (update_rows s n (map fst sets) (set_vals sets) ids []) as [[s1 b] o1] eqn:Eu. cbn [e_store e_out] in *. subst o1.
     destruct (is_sys n) eqn:Hsys.
     { destruct ids as [|k rest]; [cbn in Eu; inversion Eu|].
